@@ -471,12 +471,30 @@ func genPromise(r *simrt.RNG) *Case {
 		}
 		pl.Clients = append(pl.Clients, ops)
 	}
-	if !setter {
+	_ = setter
+	if !promLive(pl) {
+		// every Wait must be releasable: some setter has to be reachable
+		// without first passing a Wait of its own client
 		arg++
-		pl.Clients[0] = append([]PromOp{{"fulfill", arg}}, pl.Clients[0]...)
+		i := r.Intn(len(pl.Clients))
+		pl.Clients[i] = append([]PromOp{{"fulfill", arg}}, pl.Clients[i]...)
 	}
 	b, _ := json.Marshal(pl)
 	return &Case{Prop: "C19", Kind: "promise", Plan: b, Sched: PickStrategy(r, 80, []string{"client:c0", "client:c1"}, nil)}
+}
+
+// promLive reports whether the workload cannot block by design: some client
+// reaches a setter without first passing one of its own Waits.
+func promLive(pl PromPlan) bool {
+	for _, cl := range pl.Clients {
+		for _, op := range cl {
+			if op.Op == "wait" {
+				break
+			}
+			return true
+		}
+	}
+	return false
 }
 
 func shrinkPromise(c *Case) []*Case {
@@ -484,16 +502,7 @@ func shrinkPromise(c *Case) []*Case {
 	json.Unmarshal(c.Plan, &pl)
 	var out []*Case
 	add := func(q PromPlan) {
-		// keep at least one setter
-		ok := false
-		for _, cl := range q.Clients {
-			for _, op := range cl {
-				if op.Op != "wait" {
-					ok = true
-				}
-			}
-		}
-		if !ok {
+		if !promLive(q) {
 			return
 		}
 		b, _ := json.Marshal(q)
